@@ -38,7 +38,7 @@ def _constructs(fn: ast.AST, py, base: str) -> Set[str]:
 def _roles(py) -> Dict[str, Set[str]]:
     roles: Dict[str, Set[str]] = {
         k: set()
-        for k in ("creator", "hoister", "var_collector", "dim_configurer", "dim_producer", "ref_collector", "label_filter", "line_checker", "data_detector", "read_patcher")
+        for k in ("creator", "temp_creator", "hoister", "var_collector", "dim_configurer", "dim_producer", "ref_collector", "label_filter", "line_checker", "data_detector", "read_patcher")
     }
     for cls in _visitor_classes(py):
         ms = _own_methods(py, cls)
@@ -52,6 +52,8 @@ def _roles(py) -> Dict[str, Set[str]]:
                     if isinstance(n, ast.Call) and isinstance(n.func, ast.Attribute):
                         if n.func.attr == "transform_function_to_call":
                             roles["hoister"].add(cls)
+                        if n.func.attr == "get_new_temp":
+                            roles["temp_creator"].add(cls)
                         if n.func.attr == "set_is_referenced":
                             roles["label_filter"].add(cls)
                     if isinstance(n, ast.Raise) and n.exc is not None and "LineNumberTooLarge" in unparse(n.exc):
@@ -100,6 +102,13 @@ def p1(ctx: Ctx):
     for c in sorted(roles["var_collector"]):
         if c in idx:
             before(h, idx[h], c, idx[c], "temporaries created by hoisting are not declared / initialised", line[c], ["C05", "C10", "C03"])
+    # ... and so do the passes that create constructs with variables of their own (the READ patcher's string temporaries,
+    # the array elements that only its filter call shows)
+    for cr in sorted(roles["creator"]):
+        if cr in idx and cr != h and cr in roles.get("temp_creator", set()):
+            for c in sorted(roles["var_collector"]):
+                if c in idx:
+                    before(cr, idx[cr], c, idx[c], "the temporaries / array elements it introduces are created after the declaring passes have looked at the program: they get no DIM, strings no size", line[cr], ["C10", "C03"])
     # every insertion of lines that contain DIM statements precedes the pass that configures DIM statements
     for ins in P.insertions:
         src = unparse(ins.arg)
@@ -366,7 +375,7 @@ def p10b(ctx: Ctx):
     ctx.need(n >= 3, "visitors", f"only {n} collecting passes found")
 
 
-@rule("P2", "OPTION-INFLUENCE: each option of convert() reaches exactly the sinks documented for it", ["C11", "C13"], floor=25, default_props=["C11"])
+@rule("P2", "OPTION-INFLUENCE: each option of convert() reaches exactly the sinks documented for it", ["C11", "C13", "C04"], floor=25, default_props=["C11"])
 def p2(ctx: Ctx):
     P = pipeline(ctx)
     opts = [a.arg for a in P.fn.args.kwonlyargs] + [a.arg for a in P.fn.args.args[1:]]
@@ -401,6 +410,8 @@ def p2(ctx: Ctx):
                 "" if ok else f"`{sink}` is executed / chosen under a condition on option `{o}`, outside its documented influence {sorted(allowed[1])}",
                 file=COMPILER_REL,
                 line=ln,
+                # the buffer prologue hangs on the program using HBUFF (and the standard prefix), on nothing else: C04 says so
+                props=["C11", "C04"] if "Hbuff" in sink else None,
             )
         for req in sorted(P2_REQUIRED.get(o, ())):
             ok = req in seen
@@ -638,7 +649,97 @@ def p3(ctx: Ctx):
     pn = kwmap.get("procname")
     term = path_term(pn, fn, {}) if pn is not None else None
     want_term = ("stem", ("base", ("name", inp["dest"])))
-    ctx.idiom("procname=stem(input)", term is not None, term == want_term, "" if term == want_term else f"procname is `{unparse(pn) if pn is not None else None}` = {term}, not the stem of the input file's base name", file=CLI_REL, line=call.lineno)
+    if term is None and pn is not None:
+        # spelt with other string operations: decided on values - the expression is evaluated (by the checker's own small
+        # evaluator of path / split operations) for sample file names and compared with the stem of the base name
+        import os.path as _osp
+
+        class _NoVal(Exception):
+            pass
+
+        def ev_(e, name_, f_, depth=0):
+            if depth > 12:
+                raise _NoVal("depth")
+            if isinstance(e, ast.Constant):
+                return e.value
+            if isinstance(e, ast.Attribute) and e.attr == "name":
+                d_, _ = source_of(e.value)
+                if d_ == inp["dest"]:
+                    return name_
+                raise _NoVal("name of something else")
+            if isinstance(e, ast.Name):
+                for a in ast.walk(f_):
+                    if isinstance(a, ast.Assign) and len(a.targets) == 1 and isinstance(a.targets[0], (ast.Tuple, ast.List)) and any(isinstance(x, ast.Name) and x.id == e.id for x in a.targets[0].elts):
+                        seq = ev_(a.value, name_, f_, depth + 1)
+                        idx = [x.id if isinstance(x, ast.Name) else None for x in a.targets[0].elts].index(e.id)
+                        if not isinstance(seq, (tuple, list)) or len(seq) != len(a.targets[0].elts):
+                            raise ValueError("unpack")
+                        return seq[idx]
+                r_ = _ra(f_, e)
+                if r_ is e:
+                    raise _NoVal(f"name {e.id}")
+                return ev_(r_, name_, f_, depth + 1)
+            if isinstance(e, ast.Subscript):
+                base = ev_(e.value, name_, f_, depth + 1)
+                if isinstance(e.slice, ast.Slice):
+                    lo = ev_(e.slice.lower, name_, f_, depth + 1) if e.slice.lower is not None else None
+                    hi = ev_(e.slice.upper, name_, f_, depth + 1) if e.slice.upper is not None else None
+                    return base[lo:hi]
+                return base[ev_(e.slice, name_, f_, depth + 1)]
+            if isinstance(e, ast.UnaryOp) and isinstance(e.op, ast.USub):
+                return -ev_(e.operand, name_, f_, depth + 1)
+            if isinstance(e, ast.Call):
+                cn = call_name(e)
+                args_ = [ev_(a, name_, f_, depth + 1) for a in e.args]
+                if e.keywords:
+                    raise _NoVal("keywords")
+                full = unparse(e.func)
+                if full in ("os.path.basename", "basename", "path.basename"):
+                    return _osp.basename(*args_)
+                if full in ("os.path.splitext", "splitext", "path.splitext"):
+                    return _osp.splitext(*args_)
+                if full in ("os.path.split", "path.split"):
+                    return _osp.split(*args_)
+                if full in ("os.path.dirname", "dirname"):
+                    return _osp.dirname(*args_)
+                if full in ("str",) and len(args_) == 1:
+                    return str(args_[0])
+                if isinstance(e.func, ast.Attribute) and cn in ("split", "rsplit", "partition", "rpartition", "removesuffix", "removeprefix", "strip", "lower", "upper"):
+                    recv = ev_(e.func.value, name_, f_, depth + 1)
+                    if not isinstance(recv, str):
+                        raise _NoVal("method on non-text")
+                    return getattr(recv, cn)(*args_)
+                raise _NoVal(f"call {full}")
+            raise _NoVal(type(e).__name__)
+
+        samples = ["hello.bas", "dir/sub/hello.bas", "my.game.bas", "PROGRAM", "a.b.c.txt", "x.BAS", "dir.v2/prog.bas"]
+        bad_, undec_ = None, None
+        for nm_ in samples:
+            want_ = _osp.splitext(_osp.basename(nm_))[0]
+            try:
+                got_ = ev_(pn, nm_, fn)
+            except _NoVal as ex_:
+                undec_ = str(ex_)
+                break
+            except (ValueError, IndexError, TypeError) as ex_:
+                bad_ = (nm_, f"{type(ex_).__name__}", want_)
+                break
+            if got_ != want_:
+                bad_ = (nm_, got_, want_)
+                break
+        if undec_ is None:
+            ctx.ob(
+                "procname=stem(input)",
+                bad_ is None,
+                "" if bad_ is None else f"procname is computed as `{unparse(_ra(fn, pn) if isinstance(pn, ast.Name) else pn)}`: for the input file `{bad_[0]}` that gives {bad_[1]!r}, the stem of the base name is {bad_[2]!r} - the procedure is named after something else than the input file",
+                file=CLI_REL,
+                line=call.lineno,
+                witness="" if bad_ is None else f"decb-to-b09 {bad_[0]} out.b09",
+            )
+            term = want_term
+            pn_decided = True
+    if not locals().get("pn_decided"):
+      ctx.idiom("procname=stem(input)", term is not None, term == want_term, "" if term == want_term else f"procname is `{unparse(pn) if pn is not None else None}` = {term}, not the stem of the input file's base name", file=CLI_REL, line=call.lineno)
     # convert_file: passes every option through under its own name; output has \n -> \r before write
     P = pipeline(ctx)
     cf = P.convert_file
@@ -889,7 +990,9 @@ def p6(ctx: Ctx):
     m = py.mod("coco/b09/error_handler.py")
     ctx.need("generate" in m.functions, "error_handler.generate", "not found")
     # helper functions that build one line each are inlined first
-    g = next(f for f in normalise_module(m.tree).body if isinstance(f, ast.FunctionDef) and f.name == "generate")
+    from .normalise import inline_once_locals
+
+    g = inline_once_locals(next(f for f in normalise_module(m.tree).body if isinstance(f, ast.FunctionDef) and f.name == "generate"))
     labels = []
     for n in ast.walk(g):
         if isinstance(n, ast.Call) and call_name(n) == "BasicLine" and n.args and isinstance(n.args[0], ast.Constant) and isinstance(n.args[0].value, int):
@@ -934,8 +1037,17 @@ def p6(ctx: Ctx):
     oke = any(n.args[0].id == "err_line" for n in gotos)
     ctx.ob("rest->err_line", oke, "" if oke else "no GOTO err_line in the dispatcher", file=m.rel, line=g.lineno)
     # order: brk test precedes the unconditional err goto
-    brk_ln = min((n.lineno for n in gotos if n.args[0].id == "brk_line"), default=None)
-    err_ln = min((n.lineno for n in gotos if n.args[0].id == "err_line"), default=None)
+    # (order in the function text: depth-first position, not the line number - inlined helpers share the line of their call)
+    pos6: Dict[int, int] = {}
+
+    def _dfs6(n_):
+        pos6[id(n_)] = len(pos6) + 1
+        for c_ in ast.iter_child_nodes(n_):
+            _dfs6(c_)
+
+    _dfs6(g)
+    brk_ln = min((pos6[id(n)] for n in gotos if n.args[0].id == "brk_line"), default=None)
+    err_ln = min((pos6[id(n)] for n in gotos if n.args[0].id == "err_line"), default=None)
     if brk_ln and err_ln:
         ctx.ob("brk-before-err", brk_ln < err_ln, "" if brk_ln < err_ln else "the unconditional GOTO err_line precedes the break test", file=m.rel, line=g.lineno)
     for n in ast.walk(g):
@@ -1044,6 +1156,12 @@ def p7(ctx: Ctx):
                 for n in ast.walk(fn):
                     if isinstance(n, ast.Call) and call_name(n) == "BasicHbuffStatement":
                         builders.append(f"{cn}.{mn}")
+        # ... or through a module-level builder function the method refers to
+        mf_build = {fn_.name for fn_ in m.functions.values() if any(isinstance(n, ast.Call) and call_name(n) == "BasicHbuffStatement" for n in ast.walk(fn_))}
+        for cn, ci in m.classes.items():
+            for mn, fn in ci.methods.items():
+                if any(isinstance(n, ast.Name) and n.id in mf_build and isinstance(n.ctx, ast.Load) for n in ast.walk(fn)) and f"{cn}.{mn}" not in builders:
+                    builders.append(f"{cn}.{mn}")
     okb = builders == ["BasicVisitor.visit_hbuff_statement"]
     ctx.ob("BasicHbuffStatement<=visit_hbuff_statement", okb, "" if okb else f"BasicHbuffStatement is built by {builders}", file="coco/b09/parser.py", line=1)
     # the class is a hoisting-visible statement: its visit announces itself via visit_statement
@@ -1074,6 +1192,29 @@ def p8(ctx: Ctx):
     pops = [n for n in ast.walk(vn) if isinstance(n, ast.Call) and isinstance(n.func, ast.Attribute) and n.func.attr == "pop" and is_self_attr(n.func.value, stack)]
     if not pops:
         raise IdiomNotFound("stack pop idiom not recognised")
+    # counted form: `closed = [stack.pop() for _ in range(n)]` with n computed from the length of the NEXT's list (at least
+    # one for a bare NEXT) and capped by the stack depth - decided on the count expression, the branch rules below do not apply
+    from .pyast import resolve_alias as _ra8
+
+    comp_pops = [c for c in ast.walk(vn) if isinstance(c, (ast.ListComp, ast.GeneratorExp)) and any(p_ in list(ast.walk(c)) for p_ in pops)]
+    if comp_pops and len(comp_pops) == len(pops):
+        it_ = comp_pops[0].generators[0].iter
+        n_ = _ra8(vn, it_.args[0]) if isinstance(it_, ast.Call) and call_name(it_) == "range" and len(it_.args) == 1 else None
+        if n_ is None:
+            ctx.undecided("BasicNextPatcherVisitor.named-next", "the FOR stack is popped in a comprehension whose count this check does not read", file=VISITORS_REL, line=vn.lineno)
+            return
+        txt_ = unparse(n_)
+        for nm_ in [x for x in ast.walk(n_) if isinstance(x, ast.Name)]:
+            r_ = _ra8(vn, nm_)
+            if r_ is not nm_:
+                txt_ += " " + unparse(r_)
+        per_var = bool(re.search(r"len\([\w.]*(exp_list|var_list|vars)\w*\)", txt_))
+        capped = bool(re.search(rf"len\(self\.{stack}\)", txt_)) and "min(" in txt_
+        at_least_one = "max(" in txt_ or "or 1" in txt_
+        ctx.ob("BasicNextPatcherVisitor.named-next:per-variable", per_var, "" if per_var else f"the number of loops a NEXT closes (`{unparse(n_)}`) does not depend on the number of variables it lists", file=VISITORS_REL, line=vn.lineno, witness="" if per_var else "FOR K:FOR I:FOR J:NEXT J,I:NEXT")
+        ctx.ob("BasicNextPatcherVisitor.named-next", per_var and capped, "" if per_var and capped else f"the count `{unparse(n_)}` is not capped by the number of open loops", file=VISITORS_REL, line=vn.lineno)
+        ctx.idiom("BasicNextPatcherVisitor.bare-next", at_least_one, any(isinstance(n, ast.Call) and isinstance(n.func, ast.Attribute) and n.func.attr in ("append", "extend") for n in ast.walk(vn) if n not in pushes), "a bare NEXT is not given the innermost open FOR variable", file=VISITORS_REL, line=vn.lineno)
+        return
     # `del stack[-len(vars):]` removes one entry per listed variable in one step
     del_slices = [
         d
